@@ -24,6 +24,7 @@ from . import VERIF_DIR, REPO, DEPS, GUARD
 PY = "/venv/bin/python"
 NSHARDS = 16
 EXIT_HELD, EXIT_VIOLATION, EXIT_INCONCLUSIVE = 0, 1, 3
+REACH_CAP = 2000  # per worker and function
 
 
 # --------------------------------------------------------------------------
@@ -144,6 +145,7 @@ def worker_main(argv):
     mod = importlib.import_module(f"xv.props.{pid.lower()}")
     w = Worker(pid, tier, seed, shard, nshards)
     res = {"ok": False}
+    reach = _start_reach_counters()
     try:
         if hasattr(mod, "setup"):
             mod.setup(w)
@@ -188,13 +190,49 @@ def worker_main(argv):
                     )
                     if len(w.harness_errors) > 5:
                         break
+        if hasattr(mod, "extra_workload") and shard == 0 and replay_seed is None:
+            w.case_seed = f"{pid}/extra"
+            mod.extra_workload(w)
         if hasattr(mod, "teardown"):
             mod.teardown(w)
+        for k, v in reach.items():
+            w.counters["reach:" + k] = v
         res["ok"] = True
     except Exception as e:  # setup failure etc.
         w.harness_errors.append("setup/teardown\n" + "".join(traceback.format_exception(e))[-3000:])
     _dump(w, out, res)
     return 0
+
+
+def _start_reach_counters():
+    """E2 reach counters: sys.monitoring PY_START events of code objects under <repo>/xobjects,
+    counted per 'file.py:qualname' (what the workload actually drove inside the library)."""
+    counts = {}
+    mon = getattr(sys, "monitoring", None)
+    if mon is None or os.environ.get("XV_NO_REACH"):
+        return counts
+    root = os.path.join(REPO, "xobjects") + os.sep
+    tool = 3
+    try:
+        mon.use_tool_id(tool, "xv-reach")
+    except Exception:
+        return counts
+    keys = {}
+
+    def on_start(code, offset):
+        k = keys.get(code)
+        if k is None:
+            fn = code.co_filename
+            if not fn.startswith(root):
+                return mon.DISABLE
+            k = keys[code] = f"{fn[len(root):]}:{code.co_qualname}"
+        n = counts[k] = counts.get(k, 0) + 1
+        if n >= REACH_CAP:
+            return mon.DISABLE  # counted as ">= REACH_CAP"; keeps the overhead negligible
+
+    mon.register_callback(tool, mon.events.PY_START, on_start)
+    mon.set_events(tool, mon.events.PY_START)
+    return counts
 
 
 def _dump(w, out, res):
@@ -212,6 +250,16 @@ def _dump(w, out, res):
     with open(out + ".tmp", "w") as f:
         json.dump(_jsonable(res), f)
     os.replace(out + ".tmp", out)
+
+
+def _anchor_exists(a):
+    """'file.py:Class.func' -> does <repo>/xobjects/file.py still define func?"""
+    fn, qn = a.split(":", 1)
+    try:
+        src = open(os.path.join(REPO, "xobjects", fn)).read()
+    except OSError:
+        return False
+    return f"def {qn.split('.')[-1]}(" in src
 
 
 # --------------------------------------------------------------------------
@@ -354,6 +402,15 @@ def _run(pid, tier, a, mod, scratch, t0):
     violations.extend(crashes)
     for h in herrs[:3]:
         inconclusive.append("harness error: " + h[-1200:])
+    reached = {k[6:]: v for k, v in counters.items() if k.startswith("reach:")}
+    counters = {k: v for k, v in counters.items() if not k.startswith("reach:")}
+    # ---- anchor functions of the property's mechanisms must have been entered
+    anchors = {}
+    from .anchors import ANCHORS as _ANCH
+    for a_ in getattr(mod, "ANCHORS", _ANCH.get(pid, [])):
+        anchors[a_] = reached.get(a_, 0)
+        if replay_seed is None and results and not anchors[a_] and _anchor_exists(a_):
+            inconclusive.append(f"anchor function {a_} was never entered by the workload")
     # ---- floors (only for full runs)
     floors = dict(getattr(mod, "FLOORS", {}))
     if tier == "thorough":
@@ -404,6 +461,10 @@ def _run(pid, tier, a, mod, scratch, t0):
             "samples": samples or ["(no sample recorded)"],
             "observed": {k: v for k, v in sorted(counters.items())},
             "floors": floors,
+            "anchor_functions_entered": anchors,
+            "library_functions_entered": len(reached),
+            "library_calls_observed": sum(reached.values()),
+            "most_entered_library_functions": dict(sorted(reached.items(), key=lambda kv: -kv[1])[:25]),
             "shards": nshards,
             "known_finding_hits": {m: len(v) for m, v in kf_hits.items()},
             "new_violation_mechanisms": {m: len(v) for m, v in seen_mech.items()},
@@ -428,6 +489,8 @@ def _run(pid, tier, a, mod, scratch, t0):
     summ = {k: v for k, v in sorted(counters.items()) if not k.startswith("seen:")}
     print(f"[{pid}] tier={tier} seed={a.seed} cases={evaluations} distinct={len(sigs)} wall={wall:.1f}s")
     print(f"[{pid}] observed: " + ", ".join(f"{k}={v}" for k, v in summ.items()))
+    print(f"[{pid}] library functions entered: {len(reached)} ({sum(reached.values())} calls); anchors: "
+          + ", ".join(f"{k}={v}" for k, v in anchors.items()))
     if lines:
         for r in inconclusive[:3]:
             print(f"NOTE (also inconclusive): {r}")
